@@ -74,6 +74,9 @@ Definition cho_end (mixed : bool) (lo : nat) (hi : option nat) (r : option (msta
 
 Definition alt_names (alts : list spec) : list pystr := flat_map names_of alts.
 
+Lemma alt_names_cons a r : alt_names (a :: r) = names_of a ++ alt_names r.
+Proof. reflexivity. Qed.
+
 Lemma m_spec_El mixed n lo hi lm st :
   m_spec mixed (El n lo hi) lm st = Some (rule_child n lo hi lm 0 (fst st) (snd st)).
 Proof. reflexivity. Qed.
@@ -101,6 +104,9 @@ Proof. destruct w as [|x w]; simpl; [reflexivity | apply smem_app]. Qed.
 
 Lemma head_in_nil_l ns : head_in [] ns = false.
 Proof. reflexivity. Qed.
+
+Lemma head_in_nil_r {w} : head_in w [] = false.
+Proof. destruct w; reflexivity. Qed.
 
 Lemma app_eq_self {A} (e x : list A) : e ++ x = e -> x = [].
 Proof.
@@ -139,7 +145,7 @@ Proof.
       destruct (lm && hi_reached hi (S occ)) eqn:R.
       * exists 1, w, []. rewrite app_nil_r.
         assert (exists h, hi = Some h /\ S occ = h) as (h & -> & Hh).
-        { apply andb_true_iff in R as [_ R]. destruct hi as [h|]; simpl in R; [|discriminate].
+        { apply andb_true_iff in R as [_ R]. destruct hi as [h|]; unfold hi_reached in R; [|discriminate].
           apply Nat.eqb_eq in R. eauto. }
         simpl. repeat split; try reflexivity; try lia; try constructor; try discriminate.
       * destruct (IH (S occ) (if hi_exceeded hi (S occ) then e ++ [EMaxOcc] else e))
@@ -160,7 +166,7 @@ Proof.
            ++ simpl in H. destruct (Hs H L1 H1) as [A B].
               replace (occ + S k) with (S occ + k) by lia. exact B.
     + assert (pystr_eqb x n = false) as NE' by (apply pystr_eqb_neq; congruence).
-      apply pystr_eqb_neq in NE. rewrite NE, NE'.
+      rewrite NE'.
       exists 0, (x :: w), (if Nat.ltb occ lo then [EMinOcc n] else []).
       destruct (Nat.ltb occ lo) eqn:E; rewrite ?app_nil_r;
         repeat split; try discriminate; try reflexivity; try (repeat constructor; fail).
@@ -183,7 +189,8 @@ Lemma seq_of_shape f : forall items,
   step_ok (seq_of f items) (alt_names items).
 Proof.
   induction items as [|i r IH]; intros HF w e.
-  - exists [], w, []. simpl. rewrite app_nil_r. repeat split; try discriminate; constructor.
+  - exists [], w, []. simpl. rewrite app_nil_r. unfold alt_names; simpl. rewrite head_in_nil_r.
+    repeat split; try discriminate; constructor.
   - inversion HF as [|? ? Hi Hr]; subst. specialize (IH Hr).
     destruct (Hi w e) as (u1 & rest1 & new1 & E1 & W1 & P1 & Q1 & F1).
     destruct (IH rest1 (e ++ new1)) as (u2 & rest2 & new2 & E2 & W2 & P2 & Q2 & F2).
@@ -191,12 +198,12 @@ Proof.
     repeat split.
     + rewrite app_assoc. reflexivity.
     + rewrite W1, W2 at 1. rewrite app_assoc. reflexivity.
-    + unfold alt_names; simpl. rewrite head_in_app. intros H X.
+    + rewrite head_in_app. intros H X.
       apply app_eq_nil in X as [X1 X2]. subst u1 u2. simpl in *. subst rest1.
       destruct (head_in w (names_of i)) eqn:Hd.
       * apply P1; reflexivity.
       * simpl in H. subst w. apply P2; [exact H | reflexivity].
-    + unfold alt_names; simpl. rewrite head_in_app. intros H.
+    + rewrite head_in_app. intros H.
       apply orb_false_iff in H as [H1 H2].
       rewrite (Q1 H1) in *. simpl in *. subst rest1. rewrite (Q2 H2). reflexivity.
     + apply Forall_app; split; assumption.
@@ -216,8 +223,8 @@ Lemma pass_of_shape f : forall alts,
   pass_ok (pass_of f alts) (alt_names alts).
 Proof.
   induction alts as [|a r IH]; intros HF w e occ.
-  - exists [], w, [], 0. simpl. rewrite app_nil_r, Nat.add_0_r.
-    destruct w; repeat split; try discriminate; constructor.
+  - exists [], w, [], 0. simpl. rewrite app_nil_r, Nat.add_0_r. unfold alt_names; simpl.
+    rewrite head_in_nil_r. repeat split; try discriminate; constructor.
   - inversion HF as [|? ? Ha Hr]; subst. specialize (IH Hr).
     simpl. destruct w as [|x w].
     + exists [], [], [], 0. simpl. rewrite app_nil_r, Nat.add_0_r.
@@ -227,17 +234,15 @@ Proof.
       * destruct (Ha (x :: w) e) as (u1 & rest1 & new1 & E1 & W1 & P1 & Q1 & F1).
         destruct (IH rest1 (e ++ new1) (S occ)) as (u2 & rest2 & new2 & c2 & E2 & W2 & P2 & Q2 & F2).
         exists (u1 ++ u2), rest2, (new1 ++ new2), (S c2).
-        rewrite E1, E2. repeat split; try discriminate.
-        -- rewrite app_assoc. replace (S occ + c2) with (occ + S c2) by lia. reflexivity.
-        -- rewrite W1, W2 at 1. rewrite app_assoc. reflexivity.
-        -- intro X. apply app_eq_nil in X as [X _]. revert X. apply P1. exact Hd.
-        -- lia.
-        -- unfold alt_names in H; simpl in H. rewrite head_in_app, Hd in H. discriminate.
-        -- unfold alt_names in H; simpl in H. rewrite head_in_app, Hd in H. discriminate.
-        -- apply Forall_app; split; assumption.
+        rewrite E1, E2. rewrite head_in_app, Hd. cbn [orb].
+        split; [rewrite app_assoc; replace (S occ + c2) with (occ + S c2) by lia; reflexivity|].
+        split; [rewrite W1 at 1; rewrite W2 at 1; rewrite app_assoc; reflexivity|].
+        split; [intros _; split; [|lia]|].
+        { intro X. apply app_eq_nil in X as [X _]. revert X. apply P1. exact Hd. }
+        split; [discriminate|]. apply Forall_app; split; assumption.
       * destruct (IH (x :: w) e occ) as (u2 & rest2 & new2 & c2 & E2 & W2 & P2 & Q2 & F2).
         exists u2, rest2, new2, c2. rewrite E2.
-        unfold alt_names; simpl. rewrite head_in_app, Hd. simpl.
+        rewrite head_in_app, Hd. cbn [orb].
         repeat split; try assumption; try (apply P2; assumption); try (apply Q2; assumption).
 Qed.
 
@@ -254,7 +259,7 @@ Definition loop_ok (lp : nat -> mstate -> nat -> option (mstate * nat)) (ns : li
 
 Lemma loop_of_shape p ns : pass_ok p ns -> loop_ok (loop_of p ns) ns.
 Proof.
-  intros HP. induction fuel as [|f IH]; intros w e occ Hlen; [lia|].
+  intros HP fuel. induction fuel as [|f IH]; intros w e occ Hlen; [lia|].
   simpl. destruct (head_in w ns) eqn:Hd.
   - destruct (HP w e occ) as (u1 & rest1 & new1 & c1 & E1 & W1 & P1 & _ & F1).
     destruct (P1 Hd) as [U1 C1]. rewrite E1.
@@ -294,7 +299,7 @@ Proof.
       (new ++ (if hi_exceeded hi c then [EMaxChoice] else []) ++
               (if Nat.ltb c lo && negb mixed then [EMinChoice] else [])).
     repeat split; try assumption.
-    + rewrite app_assoc. reflexivity.
+    + rewrite !app_assoc. reflexivity.
     + intro H. apply P. exact H.
     + intro H. apply Q. exact H.
     + apply Forall_app; split; [exact F|].
